@@ -386,9 +386,12 @@ def plan_spacing(plan, cfg, sched, ratio_cb=None, count_cb=None):
         d = np.asarray(plan["D"][j]).astype(np.int64)
         Kj = d.shape[0]
         val = 1.0 + (N - Lj) / (xov * Lj)
-        cands = {min(c, N - Lj + 1) for c in nearest_int_candidates(val)}
+        raw_c = nearest_int_candidates(val)
+        cands = {min(c, N - Lj + 1) for c in raw_c}
         if count_cb:
             count_cb("navg_formula_checked")
+            if len(raw_c) == 2:
+                count_cb("navg_exact_half_ties_seen")
         if int(navg[j]) not in cands:
             add("navg-not-nearest-integer",
                 f"bin {j}: navg={int(navg[j])}, expected {sorted(cands)} from "
